@@ -1339,6 +1339,10 @@ class PackedTensor(TensorBase, _protocols.TensorProtocol, Generic[TArrayCompatib
         """
         array = self.numpy_packed()
         # ONNX IR returns the unpacked arrays
+        if self.dtype.bitwidth == 2:
+            return _type_casting.unpack_2bitx4(array, self.shape.numpy()).view(
+                self.dtype.numpy()
+            )
         return _type_casting.unpack_4bitx2(array, self.shape.numpy()).view(self.dtype.numpy())
 
     def numpy_packed(self) -> npt.NDArray[np.uint8]:
